@@ -8,10 +8,11 @@ Open Scope N_scope.
 
 Inductive case :=
 (* template of the parrot (candidate suites, config ids, payload lengths), extension bytes in the first hello
-   (type, length, body), extension bytes in the second hello if there was a HelloRetryRequest *)
-| CGrease (cands : list suite) (ids : list N) (lens : list N) (ext1 : bytes) (ext2 : option bytes)
+   (type, length, body), and the extension in the second hello: None = there was no HelloRetryRequest,
+   Some None = byte-identical to the first, Some (Some b) = different bytes b *)
+| CGrease (cands : list suite) (ids : list N) (lens : list N) (ext1 : bytes) (ext2 : option (option bytes))
 (* the property's oracle applied to what the implementation sent *)
-| COracle (cands : list suite) (lens : list N) (ext1 : bytes) (ext2 : option bytes).
+| COracle (cands : list suite) (lens : list N) (ext1 : bytes) (ext2 : option (option bytes)).
 
 Fixpoint index_of {A} (p : A -> bool) (l : list A) : option N :=
   match l with
@@ -24,6 +25,9 @@ Definition template (cands : list suite) (ids : list N) (lens : list N) : grease
 
 Definition other_fresh : fresh := mkFresh 170 0 0 (repeat 85 32) 0 (fun n => repeat 204 (N.to_nat n)).
 
+(* the second hello's extension, as bytes, given the first *)
+Definition second_ext (ext1 : bytes) (ext2 : option (option bytes)) : option bytes :=
+  match ext2 with None => None | Some None => Some ext1 | Some (Some b) => Some b end.
 Definition obytes_eqb (a : option bytes) (b : bytes) : bool :=
   match a with Some x => bytes_eqb x b | None => true end.
 
@@ -40,7 +44,7 @@ Definition check (c : case) : bool :=
         | Some si, Some li, Some ii =>
           let f := mkFresh (o_config_id o) ii si (o_enc o) li (fun _ => o_payload o) in
           match reads (template cands ids lens) [f; other_fresh; other_fresh] 65535 with
-          | Ok [e1; e2; e3] => bytes_eqb e1 ext1 && obytes_eqb ext2 e2 && bytes_eqb e3 e1
+          | Ok [e1; e2; e3] => bytes_eqb e1 ext1 && obytes_eqb (second_ext ext1 ext2) e2 && bytes_eqb e3 e1
           | _ => false
           end
         | _, _, _ => false
@@ -49,5 +53,5 @@ Definition check (c : case) : bool :=
       end
     | None => false
     end
-  | COracle cands lens ext1 ext2 => wf_grease_ext cands lens ext1 && obytes_eqb ext2 ext1
+  | COracle cands lens ext1 ext2 => wf_grease_ext cands lens ext1 && obytes_eqb (second_ext ext1 ext2) ext1
   end.
